@@ -10,18 +10,98 @@ package simplify
 // Consecutive kept vertices are farther apart than the threshold, except possibly the last pair.
 //@ func (*RadialSimplifier).simplify(s, ls, area, wim) (out, indexMap)
 //@   purefuncs
+//@   floats abstract
 //@   requires len(ls) >= 1 && s.DistanceFunc != nil
 //@   modifies ls[*]
 //@   ensures out.ref == ls.ref && out.off == ls.off && 1 <= len(out) && len(out) <= len(ls)
 //@   ensures same(out[0], old(ls[0])) && same(out[len(out)-1], old(ls[len(ls)-1]))
 //@   ensures forall k :: 0 <= k && k + 2 < len(out) ==> s.DistanceFunc(out[k], out[k+1]) > s.Threshold
 //@   ensures wim ==> len(indexMap) == len(out) && indexMap[0] == 0 && indexMap[len(out)-1] == len(ls)-1
-//@   ensures wim ==> (forall k :: 0 <= k && k < len(out) ==> 0 <= indexMap[k] && indexMap[k] < len(ls) && same(out[k], old(ls[indexMap[k]])))
+//@   ensures wim ==> (forall k :: 0 <= k && k < len(out) ==> 0 <= indexMap[k] && indexMap[k] < len(ls) && same(out[k], oldat(ls, indexMap[k])))
 //@   ensures wim ==> (forall k :: 0 <= k && k + 1 < len(out) ==> indexMap[k] < indexMap[k+1])
 //@   loop 1: invariant 1 <= i && i <= len(ls) && 1 <= count && count <= i && 0 <= current && current < i && count - 1 <= current
-//@   loop 1: invariant forall k :: i <= k && k < len(ls) ==> same(ls[k], old(ls[k]))
+//@   loop 1: invariant forall k :: count <= k && k < len(ls) ==> same(ls[k], old(ls[k]))
 //@   loop 1: invariant same(ls[count-1], old(ls[current])) && same(ls[0], old(ls[0]))
 //@   loop 1: invariant forall k :: 0 <= k && k + 1 < count ==> s.DistanceFunc(ls[k], ls[k+1]) > s.Threshold
 //@   loop 1: invariant wim ==> len(indexMap) == count && indexMap[0] == 0 && indexMap[count-1] == current
-//@   loop 1: invariant wim ==> (forall k :: 0 <= k && k < count ==> 0 <= indexMap[k] && indexMap[k] < i && same(ls[k], old(ls[indexMap[k]])))
+//@   loop 1: invariant wim ==> (forall k :: 0 <= k && k < count ==> 0 <= indexMap[k] && indexMap[k] < i && same(ls[k], oldat(ls, indexMap[k])))
 //@   loop 1: invariant wim ==> (forall k :: 0 <= k && k + 1 < count ==> indexMap[k] < indexMap[k+1])
+
+// Douglas-Peucker: dpWorker only ever sets mask entries (to 1) strictly inside (0, n-1); the
+// compaction keeps exactly the vertices whose mask is 1, in order, so the result is a subsequence
+// with both endpoints.
+//@ func dpWorker(ls, threshold, mask)
+//@   floats abstract
+//@   ovf assume
+//@   requires len(ls) >= 2 && len(mask) == len(ls)
+//@   requires mask[0] == 1 && mask[len(mask)-1] == 1
+//@   modifies mask[*]
+//@   ensures mask[0] == 1 && mask[len(mask)-1] == 1
+//@   ensures forall k :: 0 <= k && k < len(mask) ==> mask[k] == old(mask[k]) || mask[k] == 1
+//@   ensures result >= 2
+//@   loop 1: invariant found >= 2
+//@   loop 1: invariant len(stack) % 2 == 0 && len(stack) >= 0 && fresh(stack) && mask[0] == 1 && mask[len(mask)-1] == 1
+//@   loop 1: invariant forall j :: 0 <= j && j < len(stack) ==> 0 <= stack[j] && stack[j] < len(ls)
+//@   loop 1: invariant forall k :: 0 <= k && k < len(mask) ==> mask[k] == old(mask[k]) || mask[k] == 1
+//@   loop 2: invariant start + 1 <= i && 0 <= start && end < len(ls) && 0 <= maxIndex && maxIndex < len(ls) && (maxIndex == 0 || (start < maxIndex && maxIndex < end))
+
+//@ func (*DouglasPeuckerSimplifier).simplify(s, ls, area, wim) (out, indexMap)
+//@   floats abstract
+//@   opt makecap=assume
+//@   requires len(ls) >= 2
+//@   modifies ls[*]
+//@   ensures out.ref == ls.ref && out.off == ls.off && 2 <= len(out) && len(out) <= len(ls)
+//@   ensures same(out[0], old(ls[0])) && same(out[len(out)-1], old(ls[len(ls)-1]))
+//@   ensures wim ==> len(indexMap) == len(out) && indexMap[0] == 0 && indexMap[len(out)-1] == len(ls)-1
+//@   ensures wim ==> (forall k :: 0 <= k && k < len(out) ==> 0 <= indexMap[k] && indexMap[k] < len(ls) && same(out[k], oldat(ls, indexMap[k])))
+//@   ensures wim ==> (forall k :: 0 <= k && k + 1 < len(out) ==> indexMap[k] < indexMap[k+1])
+//@   loop 1: invariant -1 <= rangeindex && rangeindex < len(mask) && len(mask) == len(ls) && 0 <= count && count <= rangeindex + 1 && mask[0] == 1 && mask[len(mask)-1] == 1
+//@   loop 1: invariant rangeindex >= 0 ==> count >= 1 && same(ls[0], old(ls[0]))
+//@   loop 1: invariant forall k :: count <= k && k < len(ls) ==> same(ls[k], old(ls[k]))
+//@   loop 1: invariant wim ==> len(indexMap) == count && (count >= 1 ==> indexMap[0] == 0) && (forall k :: 0 <= k && k < count ==> 0 <= indexMap[k] && indexMap[k] <= rangeindex && same(ls[k], oldat(ls, indexMap[k])))
+//@   loop 1: invariant wim ==> (forall k :: 0 <= k && k + 1 < count ==> indexMap[k] < indexMap[k+1])
+//@   loop 1: invariant rangeindex == len(mask) - 1 ==> count >= 2 && same(ls[count-1], old(ls[len(ls)-1])) && (wim ==> indexMap[count-1] == len(ls)-1)
+
+// ---------------------------------------------------------------- the simplifier interface and the wrappers
+
+// every simplifier returns a prefix of its argument's array holding at least one vertex, at most
+// the input count, with the first and the last input vertex kept at the ends
+//@ func (simplifier).simplify(s, l, area, withIndexMap) (out, indexMap)
+//@   requires len(l) >= 2
+//@   opt implrequires=assume
+//@   ensures out.ref == l.ref && out.off == l.off && 1 <= len(out) && len(out) <= len(l)
+//@   ensures same(out[0], old(l[0])) && same(out[len(out)-1], old(l[len(l)-1]))
+
+// Visvalingam links its items with pointers into a slice (&items[i]), which the generator does not
+// model: its contract is ASSUMED (listed), not verified.
+//@ func (*VisvalingamSimplifier).simplify(s, ls, area, wim) (out, indexMap)
+//@   trusted
+//@   requires len(ls) >= 2
+//@   ensures out.ref == ls.ref && out.off == ls.off && 1 <= len(out) && len(out) <= len(ls)
+//@   ensures same(out[0], old(ls[0])) && same(out[len(out)-1], old(ls[len(ls)-1]))
+
+//@ func runSimplify(s, ls, area)
+//@   requires s != nil
+//@   ensures len(ls) <= 2 ==> same(result, ls)
+//@   ensures len(ls) > 2 ==> result.ref == ls.ref && result.off == ls.off && 1 <= len(result) && len(result) <= len(ls) && same(result[0], old(ls[0])) && same(result[len(result)-1], old(ls[len(ls)-1]))
+
+//@ func lineString(s, ls)
+//@   requires s != nil
+//@ func ring(s, r)
+//@   requires s != nil
+//@ func multiLineString(s, mls)
+//@   requires s != nil
+//@   ensures same(result, mls)
+//@ func polygon(s, p)
+//@   requires s != nil
+//@   ensures result.ref == p.ref && result.off == p.off && len(result) <= len(p) && (len(p) >= 1 ==> len(result) >= 1)
+//@   loop 1: invariant -1 <= rangeindex && rangeindex < len(p) && 0 <= count && count <= rangeindex + 1 && (rangeindex >= 0 ==> count >= 1)
+//@ func multiPolygon(s, mp)
+//@   requires s != nil
+//@   ensures result.ref == mp.ref && result.off == mp.off && len(result) <= len(mp)
+//@   loop 1: invariant -1 <= rangeindex && rangeindex < len(mp) && 0 <= count && count <= rangeindex + 1
+//@ func collection(s, c)
+//@   requires s != nil
+//@   ensures same(result, c)
+//@ func simplify(s, geom)
+//@   requires s != nil
